@@ -40,6 +40,6 @@ def queries(tier):
     return qs
 
 MANIFEST = {
-    "text": "REQ retry liveness decided as a progress invariant over the real req.c: at every quiescent point of every skeleton an outstanding request with resending enabled is on the send queue or assigned to a live pipe, has a resend deadline and the timer is armed; a timer fire after the deadline and a pipe loss re-queue it; with resending disabled it is transmitted at most once and a pipe loss yields ECONNRESET.",
+    "text": "REQ retry liveness decided as a progress invariant over the real req.c: at every quiescent point of every skeleton an outstanding request with resending enabled is on the send queue or assigned to a live pipe, has a resend deadline and the timer is armed; a timer fire after the deadline and a pipe loss re-queue it; with resending disabled it is transmitted at most once and a pipe loss yields ECONNRESET. Also two contexts with different resend times (the request issued later is due first).",
     "note": "Eventual success then follows from timer and dialer fairness (argued, not solved). Clock and timer are driven by the harness.",
 }
